@@ -216,6 +216,20 @@ CHECKS = {
         assumptions=["as C02", "range width < 2^32 blocks (F8)"],
         trusted_base=["hand models Model/Aggsender.lean, Model/Certificate.lean", "Lean Keccak-256 (driver only)"],
     ),
+    "C09": dict(
+        modules=["AggkitModel.Properties.C09"],
+        scenarios=[dict(name="aggsender")],
+        generated=[],
+        leanchecker=True,
+        level_text="Proved in Lean 4 for any collision-free hash algebra: C09_l1_proof — after ANY well-formed history of the L1 info tree store (blocks, rolled-back blocks, restarts, reorgs), for every recorded version m (the leaf count the certificate names; its root the L1 info root it names) and every leaf index i < m, the proof the node serves for (i, root m) hashes with the i-th leaf to exactly that root (C08's store theorem read for the L1 info tree); C09_leaf_count — root.Index+1 is the number of leaves of that root; "
+                   "C09_ger_checked — verifyClaimGERs accepts exactly the claims whose global exit root is keccak(mer, rer); C09_exit_proofs / C09_claims_verify — if the bridge contract accepted the claim, everything packed into the imported bridge exit verifies: exit leaf + proof_leaf_mer -> mainnet exit root, or exit leaf + proof_leaf_ler -> stated local exit root and + proof_ler_rer -> rollup exit root; leaf GER = hash of its exit roots; L1 info leaf + proof_ger_l1root -> named root at the stated index. "
+                   "Tie: aggsender scenario with a joint L1/L2 world — mainnet exit tree and rollups' local exit trees grow with every L1 info leaf (several leaves per L1 block, arbitrary finalized pointer), L2 claims of those deposits carry the proofs a claimer would submit; real L1InfoTreeDataQuerier over the real l1infotreesync processor, real getImportedBridgeExits / tree.CalculateRoot / gRPC conversion; "
+                   "for every imported exit of every submitted certificate the monitors verify all Merkle statements on the WIRE message with an independent verifier against independently computed trees, and a `claimdata` line feeds the claim's inputs to the model, whose packed claim data must hash (ClaimData.Hash layout, Lean Keccak) to the digest of the wire message.",
+        level_note="Trusted: Lean kernel; collision-freedom idealisation; model/code correspondence (generator-bounded); that the L2 bridge contract only accepts verifying claims (ContractAccepted) is an assumption about the contract, realised by the generator; which root GetLatestFinalizedL1InfoRoot picks is decided by the monitors (leaf count / root / index relations), not by a theorem about SQL ordering.",
+        rule="as C02, plus: every L1 info leaf adds 0-2 mainnet deposits and 0-2 rollup deposits (rollup indexes 0,1,2,4), 1-3 leaves per L1 block with increasing log positions, finalized pointer moved in half of the L1 steps; 35% of L2 events are claims of a not-yet-claimed deposit covered by a finalized leaf (mainnet and rollup origin); distinct non-trivial adds (claim kind, leaf index class, distance of the claim's L1 leaf from the named root)",
+        assumptions=["as C02", "claims on L2 were accepted by the bridge contract against a finalized global exit root"],
+        trusted_base=["hand models Model/ClaimProof.lean, Model/Tree.lean", "reference Merkle trees in the harness"],
+    ),
     "C10": dict(
         modules=["AggkitModel.Properties.C10"],
         scenarios=[dict(name="certcodec"), dict(name="aggsender")],
